@@ -1267,14 +1267,8 @@ func (c *Ctx) checkConfigPanics(r *Report, cfg map[*ssa.Function]bool) {
 	for _, f := range sortedFuncs(cfg) {
 		eachInstr(f, func(in ssa.Instruction) {
 			if p, ok := in.(*ssa.Panic); ok {
-				// compiler-inserted guard of range-over-func loops
-				if strings.Contains(in.Block().Comment, "yield") || strings.HasPrefix(in.Block().Comment, "rangefunc") {
+				if isCompilerPanic(p) {
 					return
-				}
-				if mi, ok := p.X.(*ssa.MakeInterface); ok {
-					if s, ok := constString(mi.X); ok && strings.HasPrefix(s, "yield function called after range loop exit") {
-						return
-					}
 				}
 				n++
 				r.Fail("C15.no-panic:"+fname(f), c.instrPos(in), "explicit panic reachable from Refresh/NewPlugin: a configuration error must be returned, not thrown")
@@ -1996,4 +1990,22 @@ func predsOf(b *ssa.BasicBlock) []*ssa.BasicBlock {
 		return nil
 	}
 	return b.Preds
+}
+
+// isCompilerPanic: the panic is the guard the compiler inserts into range-over-func loops ("yield function called after
+// range loop exit" and friends), not one the programmer wrote.
+func isCompilerPanic(p *ssa.Panic) bool {
+	if strings.Contains(p.Block().Comment, "yield") || strings.HasPrefix(p.Block().Comment, "rangefunc") {
+		return true
+	}
+	if mi, ok := p.X.(*ssa.MakeInterface); ok {
+		if s, ok := constString(mi.X); ok && (strings.HasPrefix(s, "yield function called after range loop exit") || strings.Contains(s, "range function continued iteration") || strings.Contains(s, "iterator call did not preserve panic")) {
+			return true
+		}
+	}
+	// the generated "exit" dispatch of a range-over-func body re-panics with a runtime error value
+	if strings.Contains(p.X.Type().String(), "runtime.") {
+		return true
+	}
+	return false
 }
